@@ -132,7 +132,7 @@ def main():
                 shutil.copytree(os.path.join(src, name), dst)
                 print("imported", name)
         return 0
-    ids = args or sorted(os.listdir(SEEDED))
+    ids = args or [s for s in sorted(os.listdir(SEEDED)) if not meta(s).get("retired")]
     f = confirm if cmd == "confirm" else detect
     snap = snapshot_repo()
     try:
